@@ -33,6 +33,9 @@ import (
 //	NVH  NEW_VIEW whose embedded PREPREPARE hash differs from the proven/attached block (P4 variant)
 //	OUT  outsider-signed PREPARE / COMMIT / VIEW_CHANGE                            (P7)
 //	XT   cross-type replay: an honest PREPARE header+signature wrapped as COMMIT    (P6)
+//	NVE  NEW_VIEW "locked" on a proof for the EMPTY hash assembled from proof-less VIEW_CHANGE signatures of an
+//	     earlier view the adversary led (a proof-less vote header and a block ref with an empty hash may be the same
+//	     bytes), proposing an arbitrary block; VCE: the same forged proof inside a vote to a correct leader (P6)
 type Adv struct {
 	e     *Engine
 	byz   []primitives.MemberId
@@ -61,7 +64,7 @@ func (a *Adv) soupDependent() bool {
 	if a.e.Cfg.Eager {
 		return true
 	}
-	for _, p := range []string{"XT", "VC", "VCT", "NV", "NVW", "NVH", "NVN", "NVM"} {
+	for _, p := range []string{"XT", "VC", "VCT", "NV", "NVW", "NVH", "NVN", "NVM", "NVE"} {
 		if a.on(p) {
 			return true
 		}
@@ -356,6 +359,22 @@ func (a *Adv) build(soup []Sent, t *LState) []int {
 	if a.on("VC") || a.on("VCT") || a.on("NV") || a.on("NVW") || a.on("NVH") || a.on("NVN") || a.on("NVM") {
 		proofs = a.proofs(soup, h)
 	}
+	// ---- VCE: vote to the target as leader carrying the empty-hash proof forged from votes of an earlier view
+	if a.on("NVE") {
+		for v := uint64(2); v <= e.Cfg.MaxView; v++ {
+			if r.Leader(v) != me || (!e.Cfg.Eager && v < t.View) {
+				continue
+			}
+			for _, b := range a.byz {
+				for _, pr := range a.emptyHashProofs(soup, h, v) {
+					for _, tag := range e.Cfg.Alphabet {
+						vt := voteT{T: protocol.LEAN_HELIX_VIEW_CHANGE, I: kit.Instance, H: H, V: primitives.View(v), Proof: pr, S: signerT{ID: b, Mode: "valid"}}
+						addRaw(mkVC(vt, a.blockFor(h, tag)), "VCE")
+					}
+				}
+			}
+		}
+	}
 	// ---- VC to the target as leader
 	if a.on("VC") || a.on("VCT") || (a.on("OUT") && a.out != nil) {
 		for v := uint64(1); v <= e.Cfg.MaxView; v++ {
@@ -394,7 +413,7 @@ func (a *Adv) build(soup []Sent, t *LState) []int {
 		}
 	}
 	// ---- NEW_VIEW in views the adversary leads
-	if a.on("NV") || a.on("NVF") || a.on("NVW") || a.on("NVH") || a.on("NVN") || a.on("NVM") {
+	if a.on("NV") || a.on("NVF") || a.on("NVW") || a.on("NVH") || a.on("NVN") || a.on("NVM") || a.on("NVE") {
 		for v := uint64(1); v <= e.Cfg.MaxView; v++ {
 			if v < t.View {
 				continue
@@ -540,6 +559,30 @@ func (a *Adv) newViews(soup []Sent, t *LState, b primitives.MemberId, v uint64, 
 			}
 		}
 	}
+	if a.on("NVE") {
+		me := signerT{ID: b, Mode: "valid"}
+		for _, pr := range a.emptyHashProofs(soup, h, v) {
+			votes := []voteT{{T: protocol.LEAN_HELIX_VIEW_CHANGE, I: kit.Instance, H: H, V: V, Proof: pr, S: me}}
+			ids := map[string]bool{string(b): true}
+			for _, c := range pool {
+				if c.pv < 0 && !ids[c.id] {
+					ids[c.id] = true
+					votes = append(votes, voteT{T: protocol.LEAN_HELIX_VIEW_CHANGE, I: kit.Instance, H: H, V: V, S: signerT{ID: primitives.MemberId(c.id), Mode: "replay", Sig: c.vcm.Content().Sender().Signature()}})
+				}
+			}
+			if !r.IsQuorum(ids) {
+				continue
+			}
+			for _, tag := range e.Cfg.Alphabet {
+				z := a.blockFor(h, tag)
+				// the embedded proposal names the proven (empty) hash, the attached block is arbitrary; and the variant naming the block's own hash
+				addRaw(mkNV(nvT{T: protocol.LEAN_HELIX_NEW_VIEW, I: kit.Instance, H: H, V: V, Votes: votes, S: me,
+					PP: brefT{protocol.LEAN_HELIX_PREPREPARE, kit.Instance, H, V, nil}, PPS: me}, z), "NVE")
+				addRaw(mkNV(nvT{T: protocol.LEAN_HELIX_NEW_VIEW, I: kit.Instance, H: H, V: V, Votes: votes, S: me,
+					PP: brefT{protocol.LEAN_HELIX_PREPREPARE, kit.Instance, H, V, kit.HashOf(z)}, PPS: me}, z), "NVE")
+			}
+		}
+	}
 	if a.on("NVF") {
 		// votes attributed to honest members under signatures the adversary cannot produce
 		var confs []*protocol.ViewChangeMessageContentBuilder
@@ -564,6 +607,57 @@ func (a *Adv) newViews(soup []Sent, t *LState, b primitives.MemberId, v uint64, 
 			add(f.CreateNewViewMessage(H, V, ppb, confs, x), "NVF")
 		}
 	}
+}
+
+// emptyHashProofs: for every view pv < v that a Byzantine member led, the "prepared proof" for (pv, empty hash) whose
+// PREPREPARE part that leader signs itself and whose PREPARE part replays the signatures of the proof-less VIEW_CHANGE
+// votes for pv that the other members addressed to it (declared type VIEW_CHANGE, so that the replayed bytes are the
+// ones the voters signed if the two encodings coincide). Whether those signatures verify is decided by the real code.
+func (a *Adv) emptyHashProofs(soup []Sent, h, v uint64) []proofT {
+	e := a.e
+	r := e.W.R
+	H := primitives.BlockHeight(h)
+	var res []proofT
+	for pv := uint64(1); pv < v; pv++ {
+		ld := primitives.MemberId(r.Leader(pv))
+		if !a.owns(ld) {
+			continue
+		}
+		ids := map[string]bool{string(ld): true}
+		pr := proofT{Present: true,
+			PP:       brefT{protocol.LEAN_HELIX_PREPREPARE, kit.Instance, H, primitives.View(pv), nil},
+			P:        brefT{protocol.LEAN_HELIX_VIEW_CHANGE, kit.Instance, H, primitives.View(pv), nil},
+			PPSender: signerT{ID: ld, Mode: "valid"}}
+		type sv struct {
+			id  string
+			sig []byte
+		}
+		var svs []sv
+		for _, s := range soup {
+			m := e.msg(int(s.Msg))
+			i := m.Info
+			if i.Kind == ref.KVC && i.Hdr.Height == h && i.Hdr.View == pv && !i.Proof.Present && !ids[i.Sender.ID] {
+				ids[i.Sender.ID] = true
+				vcm := interfaces.ToConsensusMessage(m.Raw).(*interfaces.ViewChangeMessage)
+				svs = append(svs, sv{i.Sender.ID, vcm.Content().Sender().Signature()})
+			}
+		}
+		for _, b := range a.byz { // other Byzantine members sign the PREPARE part genuinely
+			if !ids[string(b)] {
+				ids[string(b)] = true
+				svs = append(svs, sv{string(b), kit.Sig("C", b, H, pr.P.builder().Build().Raw())})
+			}
+		}
+		if !r.IsQuorum(ids) || len(svs) == 0 {
+			continue
+		}
+		sort.Slice(svs, func(i, j int) bool { return svs[i].id < svs[j].id })
+		for _, x := range svs {
+			pr.PSenders = append(pr.PSenders, signerT{ID: primitives.MemberId(x.id), Mode: "replay", Sig: x.sig})
+		}
+		res = append(res, pr)
+	}
+	return res
 }
 
 func (a *Adv) owns(id primitives.MemberId) bool {
